@@ -373,6 +373,31 @@ fn run_case(c: &Case, drv: &mut Driver, t: &mut Tally, log: &mut impl Write) {
     if step_fail.as_deref() == Some("panic") {
         t.oracle.push(format!("derive_child_pubkey panicked along {}", inp));
     }
+    // ---- composition along the path (Props/C12.v derive_xpub_splits): for a split p1 ++ p2 of the path, deriving p2 from the
+    // extended key reached by p1 gives the same key, chain code, parent fingerprint, child number or the same error; the depth
+    // byte is counted from the root.  The split point moves with the case (first, last, middle levels).
+    let n = c.path.len();
+    if !is_id && n >= 2 && n <= 255 {
+        let s = 1 + (c.cc[0] as usize + n) % (n - 1);
+        let mkp = |p: &[u32]| DerivationPath::new(p.iter().map(|&b| ChildIndex::from_bits(b)).collect::<Vec<_>>());
+        let first = quiet(AssertUnwindSafe(|| derive_xpub(prefix_of(&c.prefix), &c.root, c.cc, mkp(&c.path[..s]))));
+        if let Ok(Ok(x1)) = first {
+            let second = quiet(AssertUnwindSafe(|| derive_xpub(prefix_of(&c.prefix), &x1.pubkey, x1.chain_code, mkp(&c.path[s..]))));
+            let split_s = match second {
+                Err(_) => "panic".to_string(),
+                Ok(Err(e)) => format!("err {:x}", err_code(&e)),
+                Ok(Ok(x2)) => format!("val {} {:x} {} {} depth {}", hx(&x2.parent_fingerprint), x2.child_number, hx(&x2.chain_code), point_hex(&x2.pubkey), s + x2.depth as usize),
+            };
+            let whole_s = match &impl_x {
+                Some(x) => format!("val {} {:x} {} {} depth {}", hx(&x.parent_fingerprint), x.child_number, hx(&x.chain_code), point_hex(&x.pubkey), x.depth as usize),
+                None => impl_s.clone(),
+            };
+            t.evals += 1;
+            if split_s != whole_s {
+                t.oracle.push(format!("derive_xpub does not compose: {} split after level {s}: whole path `{}`, second half from the intermediate key `{}`", inp, whole_s, split_s));
+            }
+        }
+    }
     if t.samples.len() < 6 && (c.path.len() == 3 || c.kind.starts_with("hardened") || c.kind == "identity-root") {
         let short: String = impl_s.chars().take(150).collect();
         t.samples.push(format!("{} {} -> {}", c.kind, inp.chars().take(220).collect::<String>(), short));
